@@ -348,9 +348,7 @@ def job_e0_fp(which):
         results.append(discharge(Obligation('%s %s: de/dt is exactly 0 at e = +-0 in IEEE-754 double arithmetic (not NaN, no division by zero)' % (which, nm), goal, A,
                                             with_axioms=False, with_dens=False, replay=rp, key='e0:%s:%s' % (which, nm), timeout_ms=max(solve.qtimeout(), 120000),
                                             info={'abstracted_untainted_ops': fp.ABSTRACT['n'], 'sort': 'Float64'})))
-        so = z3.Solver()
-        so.add(A)
-        results.append({'name': '%s %s e=0 FP [reachability twin]' % (which, nm), 'key': 'twin', 'twin': True, 'verdict': str(so.check()), 'solver_s': 0.0, 'info': {}})
+        results.append({'name': '%s %s e=0 FP [reachability twin]' % (which, nm), 'key': 'twin', 'twin': True, 'verdict': solve.sat_check(list(A), 60000), 'solver_s': 0.0, 'info': {}})
     fp.ABSTRACT.update(on=False)
     return {'results': results, 'encoded': loader.ENCODED, 'label': 'e0 fp ' + which,
             'axioms': ['QF_FP Float64, round-nearest-even; arithmetic between e-independent quantities abstracted to fresh finite variables (cut)']}
